@@ -39,16 +39,15 @@ Definition ao_set c s v :=
   end.
 
 (* the calculator an item/fit talks to: item._fit.solar_system._calculator *)
-Definition fit_calc (w : world) (f : nat) : option (nat * calc) :=
+Definition calc_of (d : derived) (s : nat) : calc :=
+  match al_get neqb (d_calcs d) s with Some c => c | None => empty_calc end.
+Definition fit_calc (w : world) (d : derived) (f : nat) : option (nat * calc) :=
   match fit_solsys w f with
-  | Some s => match get_ss w s with Some x => Some (s, ss_calc x) | None => None end
+  | Some s => match get_ss w s with Some _ => Some (s, calc_of d s) | None => None end
   | None => None
   end.
-Definition put_calc (w : world) (s : nat) (c : calc) : world :=
-  match get_ss w s with
-  | Some x => put_ss w s (mkSolsys (ss_source x) (ss_fits x) c)
-  | None => fail w EKeyAbsent
-  end.
+Definition put_calc (d : derived) (s : nat) (c : calc) : derived :=
+  d_set_calcs d (al_set neqb (d_calcs d) s c).
 
 (* ------------------------------------------------------------------ *)
 (* affection register: affectee side                                   *)
@@ -532,109 +531,110 @@ Definition override_value (it : item) (a : Z) : option Q :=
 Definition override_keys (it : item) : list Z :=
   if icls_eqb (i_cls it) CSkill then [AttrId_skill_level] else [].
 
-Definition cache_put (w : world) (i : nat) (a : Z) (v : Q) : world :=
-  upd_item w i (fun it => it_set_cache it (al_set zeqb (i_cache it) a v)).
-Definition cap_set (w : world) (i : nat) (capping capped : Z) : world :=
-  upd_item w i (fun it => it_set_capmap it (ks_add_entry zeqb zeqb (i_capmap it) capping capped)).
+Definition cache_put (d : derived) (i : nat) (a : Z) (v : Q) : derived :=
+  let c := get_icache d i in put_icache d i (mkICache (al_set zeqb (ic_vals c) a v) (ic_caps c)).
+Definition cap_set (d : derived) (i : nat) (capping capped : Z) : derived :=
+  let c := get_icache d i in
+  put_icache d i (mkICache (ic_vals c) (ks_add_entry zeqb zeqb (ic_caps c) capping capped)).
 
 (* attrs[a] / attrs.get(a): None = KeyError / default. Mutual recursion of
    __getitem__, __calculate and get_modifications on explicit fuel. *)
-Fixpoint read_attr (fuel : nat) (w : world) (i : nat) (a : Z) : world * option Q :=
+Fixpoint read_attr (fuel : nat) (w : world) (d : derived) (i : nat) (a : Z) : derived * option Q :=
   match fuel with
-  | O => (fail w EOutOfFuel, None)
+  | O => (dfail d EOutOfFuel, None)
   | S fuel =>
     match get_item w i with
-    | None => (fail w EKeyAbsent, None)
+    | None => (dfail d EKeyAbsent, None)
     | Some it =>
       match override_value it a with
-      | Some v => (w, Some v)
+      | Some v => (d, Some v)
       | None =>
-        match al_get zeqb (i_cache it) a with
-        | Some v => (w, Some v)
+        match al_get zeqb (ic_vals (get_icache d i)) a with
+        | Some v => (d, Some v)
         | None =>
           (* __calculate *)
           match item_fit w i with
-          | None => (w, None)                     (* AttributeError -> AttrMetadataError *)
+          | None => (d, None)                     (* AttributeError -> AttrMetadataError *)
           | Some f =>
-            match fit_universe w f, fit_calc w f with
+            match fit_universe w f, fit_calc w d f with
             | Some u, Some (_, c) =>
               match get_attr_meta u a with
-              | None => (w, None)
+              | None => (d, None)
               | Some meta =>
                 match i_loaded it with
-                | None => (w, None)               (* unloaded item: BaseValueError *)
+                | None => (d, None)               (* unloaded item: BaseValueError *)
                 | Some _ =>
                 match (match al_get zeqb (item_type_attrs w it) a with
                        | Some v => Some v | None => am_default meta end) with
-                | None => (w, None)               (* BaseValueError *)
+                | None => (d, None)               (* BaseValueError *)
                 | Some base =>
                   match affector_specs w c i with
-                  | None => (fail w ENoneDeref, None)
+                  | None => (dfail d ENoneDeref, None)
                   | Some specs =>
                     (* get_modifications *)
-                    let gather (acc : world * list gmod) (s : spec) : world * list gmod :=
-                        let (w, mods) := acc in
-                        if negb (Z.eqb (m_tgt_attr (sp_mod s)) a) then (w, mods)
+                    let gather (acc : derived * list gmod) (s : spec) : derived * list gmod :=
+                        let (d, mods) := acc in
+                        if negb (Z.eqb (m_tgt_attr (sp_mod s)) a) then (d, mods)
                         else
-                          let (w, ov) := read_attr fuel w (sp_item s) (m_src_attr (sp_mod s)) in
+                          let (d, ov) := read_attr fuel w d (sp_item s) (m_src_attr (sp_mod s)) in
                           match ov with
-                          | None => (w, mods)     (* ModificationCalculationError *)
+                          | None => (d, mods)     (* ModificationCalculationError *)
                           | Some v =>
-                            let (w, resist) :=
+                            let (d, resist) :=
                                 match sp_resist s with
-                                | None => (w, 1)
+                                | None => (d, 1)
                                 | Some ra =>
                                   match solsys_carrier w i with
-                                  | CarFail => (fail w ENoneDeref, 1)
-                                  | CarOk None => (w, 1)
+                                  | CarFail => (dfail d ENoneDeref, 1)
+                                  | CarOk None => (d, 1)
                                   | CarOk (Some car) =>
-                                    let (w, orv) := read_attr fuel w car ra in
-                                    (w, match orv with Some r => r | None => 1 end)
+                                    let (d, orv) := read_attr fuel w d car ra in
+                                    (d, match orv with Some r => r | None => 1 end)
                                   end
                                 end in
                             match al_get zeqb NORMALIZATION_MAP (m_op (sp_mod s)) with
-                            | None => (w, mods)   (* unknown operator: logged, skipped *)
+                            | None => (d, mods)   (* unknown operator: logged, skipped *)
                             | Some ne =>
                               match normalize ne v with
-                              | None => (fail w EZeroDiv, mods)
+                              | None => (dfail d EZeroDiv, mods)
                               | Some nv =>
                                 match get_item w (sp_item s) with
-                                | None => (fail w EKeyAbsent, mods)
+                                | None => (dfail d EKeyAbsent, mods)
                                 | Some ai =>
                                   match item_type w ai with
-                                  | None => (fail w ENoneDeref, mods)
+                                  | None => (dfail d ENoneDeref, mods)
                                   | Some at_ =>
                                     let immune := match t_category at_ with
                                                   | Some cat => mem zeqb PENALTY_IMMUNE_CATEGORY_IDS cat
                                                   | None => false end in
                                     let penal := negb (am_stackable meta) && negb immune
                                                  && mem zeqb PENALIZABLE_OPERATORS (m_op (sp_mod s)) in
-                                    (w, mods ++ [mkGmod (m_op (sp_mod s)) (Qred (nv * resist)) penal
+                                    (d, mods ++ [mkGmod (m_op (sp_mod s)) (Qred (nv * resist)) penal
                                                         (m_aggmode (sp_mod s)) (m_aggkey (sp_mod s))])
                                   end
                                 end
                               end
                             end
                           end in
-                    let (w, mods) := fold_left gather specs (w, []) in
-                    let value := Qred (combine_mods (w_pen w) (am_hig meta) base mods) in
-                    let (w, value) :=
+                    let (d, mods) := fold_left gather specs (d, []) in
+                    let value := Qred (combine_mods (d_pen d) (am_hig meta) base mods) in
+                    let (d, value) :=
                         match am_max meta with
-                        | None => (w, value)
+                        | None => (d, value)
                         | Some ma =>
-                          let (w, omv) := read_attr fuel w i ma in
+                          let (d, omv) := read_attr fuel w d i ma in
                           match omv with
-                          | None => (w, value)
-                          | Some mv => (cap_set w i ma a, Qmin' value mv)
+                          | None => (d, value)
+                          | Some mv => (cap_set d i ma a, Qmin' value mv)
                           end
                         end in
                     let value := if mem zeqb LIMITED_PRECISION_ATTR_IDS a then round2 value else value in
-                    (cache_put w i a value, Some value)
+                    (cache_put d i a value, Some value)
                   end
                 end
                 end
               end
-            | _, _ => (w, None)
+            | _, _ => (d, None)
             end
           end
         end
@@ -643,18 +643,18 @@ Fixpoint read_attr (fuel : nat) (w : world) (i : nat) (a : Z) : world * option Q
   end.
 
 (* attrs.keys() *)
-Definition attr_keys (w : world) (i : nat) : list Z :=
+Definition attr_keys (w : world) (d : derived) (i : nat) : list Z :=
   match get_item w i with
   | None => []
-  | Some it => dedup zeqb (map fst (item_type_attrs w it) ++ map fst (i_cache it) ++ override_keys it)
+  | Some it => dedup zeqb (map fst (item_type_attrs w it) ++ map fst (ic_vals (get_icache d i)) ++ override_keys it)
   end.
 
 (* attrs._force_recalc *)
-Definition force_recalc (w : world) (i : nat) (a : Z) : world * bool :=
-  match get_item w i with
-  | None => (fail w EKeyAbsent, false)
-  | Some it =>
-    if al_mem zeqb (i_cache it) a
-    then (put_item w i (it_set_cache it (al_del zeqb (i_cache it) a)), true)
-    else (w, false)
-  end.
+Definition force_recalc (d : derived) (i : nat) (a : Z) : derived * bool :=
+  let c := get_icache d i in
+  if al_mem zeqb (ic_vals c) a
+  then (put_icache d i (mkICache (al_del zeqb (ic_vals c) a) (ic_caps c)), true)
+  else (d, false).
+
+(* attrs._clear(): values and cap map *)
+Definition clear_cache (d : derived) (i : nat) : derived := d_set_caches d (al_del neqb (d_caches d) i).
